@@ -151,6 +151,17 @@ CHECKS = {
              'reports, allocations above 256 MiB, hangs (confirmed by a 40 s re-run) and silent failures; a release-'
              'build run adds a 512 MiB RSS monitor.',
         note='ASan cannot see intra-object over-reads; environment faults (tmpfile, zlib memory) are out of scope.'),
+    'C10': dict(
+        category='fault_enumeration', design_ref='DESIGN.md section 2, C10',
+        technique='metamorphic monitor (image vs its .gz) plus exhaustive truncation / single-bit-flip enumeration of small gzip streams with zlib as the reference for validity',
+        text='Every container type (incl. sector counts where only the file-name hints decide the density, tiny images, '
+             'MMB, flux, half-blank two-sided dumps and hostile images) is compared with its gzip copy over levels 0-9, '
+             'optional header fields, compressed sizes on/next to multiples of 512/1024/32768 and 2-4 members with '
+             'boundaries on and off the 512-byte input buffer; every command and extract-files must agree.  For small '
+             'one- and two-member streams every truncation point and every (third, in quick) single-bit flip is run: '
+             'zlib-valid => must equal the decompressed image, otherwise => diagnostic, non-zero status, no output.',
+        note='zlib via Python decides stream validity (same library as the tool).  Trailing data that does not begin a '
+             'gzip member is not judged.'),
 }
 
 PENDING_REASON = 'check not built yet in this revision of /verif (see DESIGN.md section 7 for the order of work)'
